@@ -92,6 +92,53 @@ func Harness_C09_QueryParams() {
 	verif.Cover("encoded")
 }
 
+// Harness_C09_Nested: an object whose three keys are supplied in a
+// solver-chosen order and whose values are a solver-chosen mix of primitives,
+// empty nested maps and non-empty nested maps (themselves supplied out of
+// order). The output must equal the output for ascending supply order.
+func Harness_C09_Nested(format int) {
+	keys := []string{"a", "b", "c"}
+	kinds := []int{verif.Choose(3), verif.Choose(3), verif.Choose(3)}
+	order := []int{0, 1, 2}
+	i := verif.Choose(3)
+	order[0], order[i] = order[i], order[0]
+	if verif.Bool() {
+		order[1], order[2] = order[2], order[1]
+	}
+	write := func(ord []int) string {
+		enc, err := c01Encode(format, func(w Writer) error {
+			return w.WriteMap(func(kw func(string) Writer) error {
+				for _, k := range ord {
+					vw := kw(keys[k])
+					switch kinds[k] {
+					case 0:
+						vw.WriteString("x")
+					case 1:
+						if err := vw.WriteMap(func(func(string) Writer) error { return nil }); err != nil {
+							return err
+						}
+					case 2:
+						if err := vw.WriteMap(func(kw2 func(string) Writer) error {
+							kw2("z").WriteInt32(1)
+							kw2("y").WriteInt32(2)
+							return nil
+						}); err != nil {
+							return err
+						}
+					}
+				}
+				return nil
+			})
+		})
+		verif.Assert(err == nil, "encoding failed")
+		return enc
+	}
+	got := write(order)
+	want := write([]int{0, 1, 2})
+	verif.Assert(got == want, "output depends on the order keys were supplied in: "+got+" vs "+want)
+	verif.Cover("encoded")
+}
+
 func Harness_C09_Twin(n int) {
 	m := c09Map(n, 1)
 	a := c09Encode(fmtHeader, m)
